@@ -367,6 +367,11 @@ def run(ctx):
                 "the two random node creators (seeds, dimension, box length, geometry parameters); plus generated small-speed "
                 "variants (velocities between the 1e-13 threshold and 1)")
     trs = runcommon.traces(ctx, composite_only=True)
+    # dumped and resumed composite runs (many dumps per run): in-states pending at the dump are pickled branches of nodes; what they
+    # commit after the resume must keep the composite objects consistent like any other commit
+    res = runcommon.resumed_traces(ctx, composite=True)
+    ctx.count("resumed-composite-traces", len(res))
+    trs = trs + [t for t in res if t["legs"]]
     slow = runs.run_jobs(ctx.root, slow_jobs(ctx))
     for t in slow:
         if not t["legs"]:
@@ -385,7 +390,8 @@ def run(ctx):
                                                      "exception": (tr.get("exception") or "")[-1500:]}, "the run raised " + tr["end"])
         stats = {}
         runs.oracle_c12(tr, ctx.fail, stats)
-        if meta["levels"] == 2:
+        if meta["levels"] == 2 and (tr.get("job") or {}).get("kind") != "resumed":
+            # (a resumed trace starts in the middle of a run: the oracle judges it, the bit-exact replay needs the history from the start)
             n = replay_trace(ctx, tr)
             stats["replayed_events"] = n
         runcommon.record_trace_stats(ctx, tr, stats)
